@@ -300,6 +300,8 @@ type diffScenario struct {
 	N      int      `json:"phases"`
 	Mask   uint     `json:"delegated"`
 	Script []string `json:"script"`
+	// NoProbes: the ObjectSet has no availability probes (every phase passes at once)
+	NoProbes bool `json:"noProbes"`
 }
 
 func buildOS(w *world.World, sc diffScenario, sliced bool) {
@@ -313,7 +315,11 @@ func buildOS(w *world.World, sc diffScenario, sliced bool) {
 			ps[i].Objects = nil
 		}
 	}
-	w.MustCreate(world.NewObjectSet("r1", ps, world.StdProbes()))
+	probes := world.StdProbes()
+	if sc.NoProbes {
+		probes = nil
+	}
+	w.MustCreate(world.NewObjectSet("r1", ps, probes))
 }
 
 func step(w *world.World, ev string) {
@@ -331,6 +337,10 @@ func step(w *world.World, ev string) {
 				_ = w.SetStatus(k, osw.StatusFor(o.Content, cls))
 			}
 		}
+	case strings.HasPrefix(ev, "foreign:"):
+		// an object somebody else created occupies the name: the phase collides and the ObjectSet
+		// never gets to report what it controls
+		w.MustCreate(world.Obj("Widget", world.NS, strings.TrimPrefix(ev, "foreign:"), map[string]any{"x": int64(7)}))
 	case ev == "pause":
 		osw.SetLifecycle(w, "r1", "Paused")
 	case ev == "unpause":
@@ -405,6 +415,12 @@ func diffScenarios(quick bool) []diffScenario {
 		for _, t := range tails {
 			out = append(out, diffScenario{N: sh.n, Mask: sh.m, Script: append(append([]string{}, rollout...), t...)})
 		}
+		// a later phase collides with a foreign object, so status.controllerOf is never reported;
+		// then the ObjectSet is archived / deleted
+		for _, end := range []string{"archive", "delete"} {
+			out = append(out, diffScenario{N: sh.n, Mask: sh.m, Script: []string{"foreign:b", "round", "ready:a", "round", "round", end, "round", "round", "round", "round"}})
+			out = append(out, diffScenario{N: sh.n, Mask: sh.m, NoProbes: true, Script: []string{"foreign:b", "round", "round", end, "round", "round", "round", "round"}})
+		}
 	}
 	return out
 }
@@ -441,7 +457,10 @@ func runDiff(o checks.Opts) *report.Report {
 		rep.Outcomes[final]++
 		if msg != "" {
 			id := "sliced-differs"
-			tail := strings.Join(sc.Script[len(rollout):], ",")
+			tail := strings.Join(sc.Script, ",")
+			if len(sc.Script) >= len(rollout) && strings.Join(sc.Script[:len(rollout)], ",") == strings.Join(rollout, ",") {
+				tail = strings.Join(sc.Script[len(rollout):], ",")
+			}
 			switch {
 			case strings.Contains(tail, "archive"):
 				id = "sliced-differs-on-archival"
@@ -702,7 +721,7 @@ func init() {
 		ID:    "C14",
 		Level: "model_checking",
 		Assumptions: []string{
-			"the differential compares projected states after each step of scripted fair histories (not all interleavings); request-level equality is not demanded because the sliced variant additionally reads and owns its slices",
+			"the differential compares projected states after each step of scripted fair histories (incl. a later phase colliding with a foreign object so that controllerOf is never reported, followed by archival / deletion) (not all interleavings); request-level equality is not demanded because the sliced variant additionally reads and owns its slices",
 		},
 		Subs: []*checks.Sub{
 			{Name: "chunking", Shards: func(string) int { return 16 }, Run: runChunking},
